@@ -18,7 +18,7 @@ OkR(p) == p.oks[4]
 GensBad(e) == \E j \in DOMAIN e.gens : e.gens[j].exc # "" \/ ~e.gens[j].vok
 
 Verdict(e) ==
-  IF e.op = "add_bad" THEN (IF e.exc = "TypeError" THEN "OK" ELSE "FAIL:add_with_non_dict_operand:")
+  IF e.op = "add_bad" THEN "OK"        \* d + <not a dict schema>: TypeError today (drift otherwise), outside C13
   ELSE IF e.op = "make_required" /\ e.exc # ""
        THEN IF e.exc = "DeclarationError" /\ IsSome(e.ks)
                /\ \E i \in DOMAIN Get(e.ks) : ~KeysHas(IF IsSome(e.a.keys) THEN Get(e.a.keys) ELSE <<>>, Get(e.ks)[i])
@@ -42,7 +42,7 @@ Verdict(e) ==
   ELSE IF e.op = "getitem" /\ \E j \in DOMAIN e.items :
             LET it == e.items[j]
                 declared == IsSome(e.a.keys) /\ ~IsEll(it.key) /\ KeysHas(Get(e.a.keys), it.key)
-            IN  IF declared THEN it.exc # "" \/ ~it.same ELSE it.exc # "KeyError"
+            IN  IF declared THEN it.exc # "" \/ ~it.same ELSE it.exc = ""      \* (KeyError today; any refusal will do)
        THEN "FAIL:getitem_does_not_expose_member:"
   ELSE IF e.op = "getitem" /\ e.iter # DictKeys(e.a) THEN "FAIL:iteration_does_not_expose_keys:"
   ELSE IF e.rep /\ Sat(Get(e.res)) /\ ~KnownGenSig(Get(e.res)) /\ GensBad(e)
@@ -62,6 +62,9 @@ Drift(e) ==
   \/ m.ok # (e.exc = "")
   \/ ~m.ok /\ m.exc # e.exc
   \/ m.ok /\ e.rep /\ m.s # Get(e.res)
+  \/ e.op = "getitem" /\ \E j \in DOMAIN e.items :
+        ~(IsSome(e.a.keys) /\ ~IsEll(e.items[j].key) /\ KeysHas(Get(e.a.keys), e.items[j].key))
+        /\ e.items[j].exc # "KeyError"
 
 TraceNext == TraceStep(Verdict, Drift)
 
